@@ -117,6 +117,7 @@ pub fn shapes(thorough: bool) -> Vec<Shape> {
         Stage::Resamp(2, 3),
         Stage::MoveWait,
         Stage::SyncId,
+        Stage::MoveWaitFunc,
     ];
     let mut v = vec![Shape::Chain(vec![])];
     for s in &stages {
@@ -138,6 +139,7 @@ pub fn shapes(thorough: bool) -> Vec<Shape> {
             (Stage::MoveWait, Stage::AddConst(1)),
             (Stage::Skip(1), Stage::Delay(2)),
             (Stage::Resamp(2, 1), Stage::MoveWait),
+            (Stage::MoveWaitFunc, Stage::Resamp(1, 2)),
         ]
     };
     for (a, b) in pairs {
@@ -191,12 +193,18 @@ pub fn run(tier: &str, shard: Option<&str>) -> Report {
                 if !thorough && per_page == 4 && pages == 2 {
                     continue;
                 }
-                for src_len in lens {
+                for (src_len, file_repeat) in lens
+                    .iter()
+                    .map(|l| (*l, 0u64))
+                    .chain(if matches!(shape, Shape::Chain(_)) { vec![(1usize, 2u64), (cap + 1, 2), (cap, 3), (2, 1)] } else { vec![] })
+                    .collect::<Vec<_>>()
+                {
                     let probe = GraphSpec {
                         shape: shape.clone(),
                         per_page,
                         pages,
                         src_len,
+                        file_repeat,
                         order: vec![],
                     };
                     if probe.degenerate() {
